@@ -11,3 +11,7 @@ mod write;
 
 #[cfg(test)]
 mod tests;
+
+#[cfg(kani)]
+#[path = "/verif/units/kani/bitbox_wal.rs"]
+mod verif_kani;
